@@ -260,6 +260,10 @@ pub fn rustc_check(asm: Assembled, w: u64) -> RustcOut {
         .arg("--crate-name")
         .arg("pvcrate")
         .arg("--emit=metadata")
+        // the property is about type-checking: deny-by-default lints (e.g. bindings_with_variant_name,
+        // a parameter named like a case of its enum type) are not type errors
+        .arg("--cap-lints")
+        .arg("warn")
         .arg("--error-format=json")
         .arg("-o")
         .arg(sc.path("out.rmeta"))
@@ -331,6 +335,8 @@ pub fn rustc_run(asm: Assembled) -> RunOut {
         .arg("debuginfo=0")
         .arg("-C")
         .arg("overflow-checks=off")
+        .arg("--cap-lints")
+        .arg("warn")
         .arg("--error-format=json")
         .arg("-o")
         .arg(&exe)
